@@ -14,7 +14,9 @@ import time
 VERIF = os.path.dirname(os.path.dirname(os.path.abspath(__file__)))
 REPO = os.environ.get("VERIF_REPO", "/repo")
 BUILD = os.environ.get("VERIF_BUILD", os.path.join(VERIF, "build"))  # override only for development runs side by side
-EVIDENCE_DIR = os.path.join(VERIF, "evidence")
+# development runs against a deliberately patched /repo (seeds, refactors) write their evidence elsewhere, so that
+# /verif/evidence always holds what the registered commands produced on the unchanged tree
+EVIDENCE_DIR = os.environ.get("VERIF_EVIDENCE_DIR") or os.path.join(VERIF, "evidence")
 REPLAY_DIR = os.path.join(VERIF, "replays")
 KNOWN_FINDINGS = os.path.join(VERIF, "known_findings.json")
 NCPU = int(os.environ.get("VERIF_JOBS", str(os.cpu_count() or 4)))
